@@ -65,7 +65,7 @@ theorem ref_attributes (s : SchemaDef) (rows : List Row) (h : traitRows s = .ok 
     ∃ kvs target, (p, kvs) ∈ rows ∧ lookup s.types ty = some target ∧ (∀ n ty o a, target ≠ .ref n ty o a) ∧
       ("name", txt n) ∈ kvs ∧ ("since_version", num a.since) ∈ kvs ∧
       (∀ kv ∈ refInherited target, kv ∈ kvs) ∧
-      (∀ d, a.deprecated = some d → ∀ v, ("deprecated", v) ∈ kvs ↔ v = num d) ∧
+      (∀ v, ("deprecated", v) ∈ kvs ↔ a.deprecated.map num = some v) ∧
       ("kind", elemKind s.types target) ∈ kvs := by
   obtain ⟨kvs, d, hk, hd, rfl⟩ := row_of_entity s rows h p _ ((entities_iff s p _).mpr he)
   obtain ⟨target, ic, base, hl, ht, _, _, _⟩ := ref_target s.types ctx n ty o a d hd
@@ -79,9 +79,8 @@ theorem ref_attributes (s : SchemaDef) (rows : List Row) (h : traitRows s = .ok 
   · exact hattr _ (refAttr_own s.types p n ty o a target hl _ (by simp [xmlEncAttrs]))
   · intro kv hkv
     exact hattr _ (refAttr_inherited s.types p n ty o a target hl ht kv hkv)
-  · intro dd hdd v
-    have := refAttr_deprecated s.types p n ty o a target hl ht v
-    simp only [hdd] at this
+  · intro v
+    have := refAttr_deprecated s.types p n ty o a target hl v
     simp only [List.mem_append, List.mem_cons, Prod.mk.injEq, List.not_mem_nil, or_false, attrKVs]
     constructor
     · rintro ((h1 | h2) | h3)
@@ -98,44 +97,38 @@ theorem ref_attributes (s : SchemaDef) (rows : List Row) (h : traitRows s = .ok 
     rw [hkind]
     simp
 
-/-- full-strength statement about `deprecated`: the trait is present only if the
-    entity's own XML element has the attribute, and then equals it -/
-def ref_deprecated_full : Prop :=
-  ∀ (types : List Elem) (self : Path) (e : Elem) (v : String),
-    ("deprecated", v) ∈ elemAttrKVs types self e → (elemAttrs e).deprecated.map num = some v
-
-/-- the generator violates it: `<ref name="r" type="T"/>` without `deprecated` to a
-    `<type name="T" … deprecated="2"/>` gets `deprecated() == 2` from the base class
-    `type_traits<T>` (while `since_version()` is overridden with the ref's own) -/
-theorem ref_deprecated_full_false : ¬ ref_deprecated_full := by
-  intro hfull
-  have hmem : ("deprecated", "2") ∈ elemAttrKVs
-      [.type { name := "T", prim := "uint8", length := 1, presence := .required, offset := none,
-               attrs := { deprecated := some 2 } }]
-      ["types", "C", "r"] (.ref "r" "T" none {}) := by decide +kernel
-  have := hfull _ _ _ _ hmem
-  simp [elemAttrs] at this
-
-/-- exact extra hypothesis under which the statement holds: `e` is not a ref, or the
-    ref has its own `deprecated`, or the referred encoding has none -/
-theorem ref_deprecated_partial (types : List Elem) (self : Path) (e : Elem) (v : String)
-    (hyp : ∀ n ty o a, e = .ref n ty o a → ∃ target, lookup types ty = some target ∧
-      (∀ n ty o a, target ≠ .ref n ty o a) ∧ (a.deprecated ≠ none ∨ (elemAttrs target).deprecated = none)) :
-    ("deprecated", v) ∈ elemAttrKVs types self e ↔ (elemAttrs e).deprecated.map num = some v := by
+/-- **ref_deprecated_full**: for every encoding - inline or public, ref or not - the
+    `deprecated` trait is present only if the element's own XML has the attribute, and then
+    equals it.  (Before the repair of `make_traits(sbe::ref)` a ref without the attribute
+    exposed the referred encoding's `deprecated()` through the base class; the generator now
+    declares the member deleted, which the model renders as erasing the key.) -/
+theorem ref_deprecated_full (types : List Elem) (self : Path) (e : Elem) (v : String)
+    (h : ("deprecated", v) ∈ elemAttrKVs types self e) : (elemAttrs e).deprecated.map num = some v := by
   by_cases hr : ∃ n ty o a, e = .ref n ty o a
   · obtain ⟨n, ty, o, a, rfl⟩ := hr
-    obtain ⟨target, hl, ht, hd⟩ := hyp n ty o a rfl
-    rw [refAttr_deprecated types self n ty o a target hl ht v]
-    show _ ↔ a.deprecated.map num = some v
-    cases hdep : a.deprecated with
-    | some d => simp [eq_comm]
-    | none =>
-      rcases hd with hd | hd
-      · exact absurd hdep hd
-      · simp [hd]
+    cases hlk : lookup types ty with
+    | some target => exact (refAttr_deprecated types self n ty o a target hlk v).mp h
+    | none => simp [elemAttrKVs, hlk] at h
   · have hr' : ∀ n ty o a, e ≠ .ref n ty o a := fun n ty o a he => hr ⟨n, ty, o, a, he⟩
-    rw [elemAttrKVs_nonref types self e hr']
-    exact encAttr_deprecated self e v hr'
+    rw [elemAttrKVs_nonref types self e hr'] at h
+    exact (encAttr_deprecated self e v hr').mp h
+
+/-- **traits_deprecated_own**: in the table, for every entity including refs, `deprecated`
+    is present exactly when the entity's own XML element has the attribute, with its value -/
+theorem traits_deprecated_own (s : SchemaDef) (rows : List Row) (h : traitRows s = .ok rows) (p : Path) (ent : Entity)
+    (he : EntityAt s p ent) :
+    ∃ kvs, (p, kvs) ∈ rows ∧ ∀ v, ("deprecated", v) ∈ kvs ↔ (ownDeprecated ent).map num = some v := by
+  by_cases hr : isRef ent = false
+  · obtain ⟨kvs, hk, _, hd⟩ := traits_copy_attributes s rows h p ent he hr
+    exact ⟨kvs, hk, hd⟩
+  · cases ent with
+    | elem e ctx =>
+      cases e with
+      | ref n ty o a =>
+        obtain ⟨kvs, target, hk, _, _, _, _, _, hd, _⟩ := ref_attributes s rows h p n ty o a ctx he
+        exact ⟨kvs, hk, by simpa [ownDeprecated, elemAttrs] using hd⟩
+      | _ => simp [isRef] at hr
+    | _ => simp [isRef] at hr
 
 /-- **traits_derived (presence)**: a field's `presence` trait is the actual presence SBE
     derives (the type's for `<type>` fields, required for sets and non-constant enums, …) -/
@@ -463,7 +456,7 @@ example : (traitTable demo).toOption.map (fun t => t.map (·.1)) =
 
 example : ((traitTable demo).toOption.bind (fun t => t.lookup "types.H.r")).map
       (fun kvs => (kvs.lookup "kind", kvs.lookup "offset", kvs.lookup "deprecated", kvs.lookup "presence")) =
-    some (some "type", some "4", some "2", some "optional") := by decide +kernel
+    some (some "type", some "4", none, some "optional") := by decide +kernel
 
 example : ((traitTable demo).toOption.bind (fun t => t.lookup "messages.M.f")).map
       (fun kvs => (kvs.lookup "presence", kvs.lookup "offset")) = some (some "optional", some "3") := by decide +kernel
@@ -486,18 +479,10 @@ example : EntityAt demo ["types", "H", "r"] (.elem demoR (some [demoBL])) ∧ is
   exact ElemAt.nested ["types"] none "H" none [demoBL, demoR, demoE] {} [demoBL] demoR _ _ ⟨[demoE], rfl⟩
     (ElemAt.self (["types"] ++ ["H"]) (some [demoBL]) demoR)
 
-/-- the hypothesis of `ref_deprecated_partial` holds for a ref with its own `deprecated` -/
-example : ∀ n ty o a, Elem.ref "r" "T" none { deprecated := some 1 } = .ref n ty o a →
-    ∃ target, lookup demo.types ty = some target ∧ (∀ n ty o a, target ≠ .ref n ty o a) ∧
-      (a.deprecated ≠ none ∨ (elemAttrs target).deprecated = none) := by
-  intro n ty o a h
-  cases h
-  refine ⟨demoT, ?_, by intro _ _ _ _ h; simp [demoT] at h, Or.inl (by simp)⟩
-  simp only [lookup, demo, List.find?]
-  split
-  · rfl
-  · rename_i hne
-    simp [demoT, Elem.name] at hne
+/-- `ref_deprecated_full` is not vacuous: a ref with its own `deprecated` has the trait,
+    with the ref's value and not the referred type's -/
+example : ("deprecated", "1") ∈ elemAttrKVs demo.types ["types", "H", "r"] (.ref "r" "T" none { deprecated := some 1 }) ∧
+    ("deprecated", "2") ∉ elemAttrKVs demo.types ["types", "H", "r"] (.ref "r" "T" none {}) := by decide +kernel
 
 example : UniqueNames demo := by
   simp [UniqueNames, UniqueElems, UniqueElem, UniqueMessages, UniqueGroups, UniqueGroup, levelNames, demo, demoT, demoH,
